@@ -156,6 +156,20 @@ def _structure_returns(stmts: List[ast.stmt], ret: str, _budget: Optional[List[i
             (bs, bl), (os_, ol) = b, o
             out.append(ast.copy_location(ast.If(test=st.test, body=bs or [ast.Pass()], orelse=os_), st))
             return out, bl and ol
+        if isinstance(st, ast.Try) and _contains_return(st) and i == len(stmts) - 1 and not st.finalbody:
+            # a try statement in tail position: its body / else / handlers are tail blocks themselves
+            b = _structure_returns(list(st.body), ret, _budget)
+            o = _structure_returns(list(st.orelse), ret, _budget) if st.orelse else ([], None)
+            hs = [_structure_returns(list(h.body), ret, _budget) for h in st.handlers]
+            if b is None or o is None or any(h is None for h in hs):
+                return None
+
+            def raises(body):
+                return bool(body) and isinstance(body[-1], ast.Raise)
+            new_handlers = [ast.copy_location(ast.ExceptHandler(type=h.type, name=h.name, body=hb[0] or [ast.Pass()]), h) for h, hb in zip(st.handlers, hs)]
+            out.append(ast.copy_location(ast.Try(body=b[0] or [ast.Pass()], handlers=new_handlers, orelse=o[0], finalbody=[]), st))
+            body_all = b[1] if not st.orelse else (b[1] or bool(o[1]))
+            return out, body_all and all(hb[1] or raises(h.body) for h, hb in zip(st.handlers, hs))
         if _contains_return(st):
             return None
         out.append(st)
@@ -201,8 +215,17 @@ class Inliner:
 
     def _bind(self, callee, call: ast.Call, recv_self: bool) -> Optional[Dict[str, ast.AST]]:
         a = callee.node.args
-        if a.vararg or a.kwarg or any(isinstance(x, ast.Starred) for x in call.args) or any(k.arg is None for k in call.keywords):
+        if a.vararg or any(isinstance(x, ast.Starred) for x in call.args) or any(k.arg is None for k in call.keywords):
             return None
+        extra_kw = None
+        if a.kwarg:
+            # **kwargs that the helper only passes on (`g(x, **kwargs)`): the call's surplus keywords take its place
+            kw = a.kwarg.arg
+            uses = [n for n in ast.walk(callee.node) if isinstance(n, ast.Name) and n.id == kw]
+            passes = [k for n in ast.walk(callee.node) if isinstance(n, ast.Call) for k in n.keywords if k.arg is None and isinstance(k.value, ast.Name) and k.value.id == kw]
+            if len(uses) != len(passes):
+                return None
+            extra_kw = kw
         names = [x.arg for x in a.posonlyargs + a.args]
         if callee.cls is not None and not callee.is_static and names and names[0] in ("self", "cls"):
             names = names[1:]
@@ -212,10 +235,18 @@ class Inliner:
         for n, v in zip(names, call.args):
             out[n] = v
         kwonly = [x.arg for x in a.kwonlyargs]
+        surplus = []
         for k in call.keywords:
-            if k.arg in out or (k.arg not in names and k.arg not in kwonly):
+            if k.arg in out:
                 return None
+            if k.arg not in names and k.arg not in kwonly:
+                if extra_kw is None:
+                    return None
+                surplus.append(k)
+                continue
             out[k.arg] = k.value
+        if extra_kw is not None:
+            out["**" + extra_kw] = surplus
         pos = [x.arg for x in a.posonlyargs + a.args]
         for n, d in zip(pos[len(pos) - len(a.defaults):], a.defaults):
             if n in names and n not in out:
@@ -227,12 +258,28 @@ class Inliner:
             return None
         return out
 
+    @staticmethod
+    def _splice_kwargs(body: List[ast.stmt], kw: str, surplus: List[ast.keyword]) -> None:
+        for st in body:
+            for n in ast.walk(st):
+                if isinstance(n, ast.Call):
+                    new = []
+                    for k in n.keywords:
+                        if k.arg is None and isinstance(k.value, ast.Name) and k.value.id == kw:
+                            new += [copy.deepcopy(x) for x in surplus]
+                        else:
+                            new.append(k)
+                    n.keywords = new
+
     # -- expansion --------------------------------------------------------------------------------
     def _instantiate(self, callee, binding: Dict[str, ast.AST]) -> Tuple[List[ast.stmt], List[ast.stmt]]:
         """(prologue binding temporaries, renamed body)"""
         self.counter += 1
         tag = f"__inl{self.counter}_"
         body = copy.deepcopy(_strip_doc(callee.node.body))
+        for p in [k for k in binding if k.startswith("**")]:
+            self._splice_kwargs(body, p[2:], binding[p])
+        binding = {k: v for k, v in binding.items() if not k.startswith("**")}
         assigned = _assigned(body)
         mapping: Dict[str, object] = {}
         prologue: List[ast.stmt] = []
@@ -248,7 +295,26 @@ class Inliner:
                 mapping[name] = tag + name
         ren = _Rename(mapping)
         body = [ren.visit(st) for st in body]
+        self._carry_globals(callee, body)
         return prologue, body
+
+    def _carry_globals(self, callee, body: List[ast.stmt]) -> None:
+        """moved code keeps the meaning of its global names: a name the helper's module knows (import / top-level definition)
+        that the receiving module does not is made known there as an import of the helper module's symbol."""
+        src = callee.module
+        dst = getattr(self, "_current_module", None)
+        if dst is None or dst is src:
+            return
+        for st in body:
+            for n in ast.walk(st):
+                if isinstance(n, ast.Name) and isinstance(n.ctx, ast.Load):
+                    nm = n.id
+                    if nm in dst.imports or nm in dst.functions or nm in dst.classes:
+                        continue
+                    if nm in src.imports:
+                        dst.imports[nm] = src.imports[nm]
+                    elif nm in src.classes or nm in src.functions:
+                        dst.imports[nm] = (src.name, nm)
 
     def expand_stmt(self, fi, st: ast.stmt, depth: int) -> Optional[List[ast.stmt]]:
         call = None
@@ -360,6 +426,8 @@ class Inliner:
                 if e is None:
                     return node
                 inl.expanded[callee.qualname] = inl.expanded.get(callee.qualname, 0) + 1
+                if any(k.startswith("**") for k in b):
+                    return node   # pass-through keyword dictionaries are only handled in statement position
                 out = _Rename({k: v for k, v in b.items()}).visit(copy.deepcopy(e))
                 out = ast.copy_location(out, node)
                 # helpers used inside the expanded expression (bounded: helpers are not recursive)
@@ -514,6 +582,7 @@ class Inliner:
                 continue
             new = copy.deepcopy(fi.node)
             before = ast.dump(new)
+            self._current_module = fi.module
             new.body = self.expand_block(fi, new.body, 0)
             if ast.dump(new) != before:
                 ast.fix_missing_locations(new)
